@@ -24,6 +24,7 @@ type HarnessResult struct {
 	InconclMsgs  []string
 	Reached      map[string]int
 	Asserts      map[string]int
+	Folded       map[string]int
 	Violations   []interp.Violation
 	Queries      map[string]int
 	SolverTime   time.Duration
@@ -53,7 +54,7 @@ func Explore(l *Loaded, c *Check, o Options) (*HarnessResult, error) {
 	if err != nil {
 		return nil, err
 	}
-	hr := &HarnessResult{Check: c, Inconclusive: map[string]int{}, Reached: map[string]int{}, Asserts: map[string]int{},
+	hr := &HarnessResult{Check: c, Inconclusive: map[string]int{}, Reached: map[string]int{}, Asserts: map[string]int{}, Folded: map[string]int{},
 		Queries: map[string]int{}, Funcs: map[string]bool{}, Stubs: map[string]bool{}}
 	t0 := time.Now()
 	solverName := o.SolverName
@@ -144,6 +145,9 @@ func Explore(l *Loaded, c *Check, o Options) (*HarnessResult, error) {
 			}
 			for k, n := range res.Asserts {
 				hr.Asserts[k] += n
+			}
+			for k, n := range res.Folded {
+				hr.Folded[k] += n
 			}
 			for f := range res.Funcs {
 				hr.Funcs[funcKey(l, f)] = true
